@@ -153,6 +153,10 @@ func (p *Program) newFolder(h *types.Func) *folder {
 			}
 			for _, nm := range fd.Names {
 				o := f.info.Defs[nm]
+				if nm.Name == "_" {
+					f.params = append(f.params, nil) // a blank parameter: any argument will do
+					continue
+				}
 				if o == nil {
 					return false
 				}
@@ -315,6 +319,9 @@ func (f *folder) call(b *binding, pos token.Pos) *ast.CallExpr {
 	var fun ast.Expr = id
 	params := f.params
 	if f.decl.Recv != nil {
+		if params[0] == nil {
+			return nil
+		}
 		r, ok := b.par[params[0]]
 		if !ok {
 			return nil
@@ -324,6 +331,12 @@ func (f *folder) call(b *binding, pos token.Pos) *ast.CallExpr {
 	}
 	c := &ast.CallExpr{Fun: fun, Lparen: pos, Rparen: pos}
 	for _, po := range params {
+		if po == nil {
+			z := &ast.BasicLit{ValuePos: pos, Kind: token.INT, Value: "0"}
+			f.info.Types[z] = types.TypeAndValue{Type: types.Typ[types.UntypedInt]}
+			c.Args = append(c.Args, z)
+			continue
+		}
 		a, ok := b.par[po]
 		if !ok {
 			return nil
